@@ -2014,7 +2014,7 @@ namespace gch
       template <typename A = alloc_ty, typename V = value_ty, typename ...Args,
         typename std::enable_if<(  sizeof...(Args) != 1
                                ||! is_uninitialized_memcpyable<V, Args...>::value)
-                            &&  has_alloc_construct<A, V, Args...>::value>::type * = nullptr>
+                            &&  must_use_alloc_construct<A, V, Args...>::value>::type * = nullptr>
       GCH_CPP20_CONSTEXPR
       void
       construct (ptr p, Args&&... args)
@@ -2028,7 +2028,7 @@ namespace gch
       template <typename A = alloc_ty, typename V = value_ty, typename ...Args,
         void_t<typename std::enable_if<(  sizeof...(Args) != 1
                                       ||! is_uninitialized_memcpyable<V, Args...>::value)
-                                   &&! has_alloc_construct<A, V, Args...>::value>::type,
+                                   &&! must_use_alloc_construct<A, V, Args...>::value>::type,
                decltype (::new (std::declval<void *> ()) V (std::declval<Args> ()...))
                > * = nullptr>
       GCH_CPP20_CONSTEXPR
